@@ -48,3 +48,18 @@ theorem laneOf_rank1 (a : Arr α) (n : Nat) (c : List Nat) (hwf : a.WF) (hs : a.
     simp [Arr.get?, hs, ravel]
 
 end ArrModel
+
+/-! sample 1-D bodies for the non-vacuity examples of `Props/C08.lean` -/
+namespace ArrModel.C08
+open ArrModel Arr
+/-- 1-D `sum(None)` on naturals: `Self::single(fold …)` -/
+def sumBody (arr : Arr Nat) : Res (Arr Nat) := .ok (Arr.single arr.elems.sum)
+/-- 1-D `cumsum(None)` on naturals: running totals -/
+def cumsumBody (arr : Arr Nat) : Res (Arr Nat) :=
+  .ok (Arr.flat ((List.range arr.elems.length).map (fun i => (arr.elems.take (i + 1)).sum)))
+/-- 1-D `count_nonzero(None, keepdims)` on naturals -/
+def countBody (arr : Arr Nat) (kd : Option Bool) : Res (Arr Nat) :=
+  Arr.keepdimsTail arr.ndim kd (Arr.single (arr.elems.filter (· != 0)).length)
+/-- the `[2,3,2,2]` sample array `0..24` -/
+def sample : Arr Nat := ⟨List.range 24, [2, 3, 2, 2]⟩
+end ArrModel.C08
